@@ -808,9 +808,52 @@ func FileWriteTo(file *os.File, w io.Writer) (int64, error) {
 	}
 }
 
+func FileReadDir(file *os.File, n int) ([]fs.DirEntry, error) {
+	f := Cur
+	h, err := f.h(file, "readdir")
+	if err != nil {
+		return nil, err
+	}
+	if err, _ := f.step("readdir", h.path); err != nil {
+		return nil, err
+	}
+	if h.dirRead {
+		if n > 0 {
+			return nil, io.EOF
+		}
+		return nil, nil
+	}
+	h.dirRead = true
+	var out []fs.DirEntry
+	for _, k := range f.children(h.path) {
+		out = append(out, dirEntry{infoOf(k, f.Nodes[k]).(*fileInfo)})
+	}
+	return out, nil
+}
+
+func EvalSymlinks(path string) (string, error) {
+	if Cur.Nodes[path] == nil {
+		return "", pathErr("lstat", path, syscall.ENOENT)
+	}
+	return path, nil
+}
+
+func Symlink(oldname, newname string) error {
+	return &os.LinkError{Op: "symlink", Old: oldname, New: newname, Err: syscall.EPERM}
+}
+
+func Getwd() (string, error) { return "/", nil }
+
 // ---- clock ----
 
-func Now() time.Time { return time.Unix(Cur.now(), 0) }
+func Now() time.Time {
+	if Cur == nil {
+		return time.Unix(1700000000, 0)
+	}
+	return time.Unix(Cur.now(), 0)
+}
+func Since(t time.Time) time.Duration { return Now().Sub(t) }
+func Until(t time.Time) time.Duration { return t.Sub(Now()) }
 
 // ---- SHA-256 ----
 
@@ -914,9 +957,15 @@ var Stubs = map[string]any{
 	"stub:(*os.File).Fd":              FileFd,
 	"stub:(*os.File).Sync":            FileSync,
 	"stub:(*os.File).Readdirnames":    FileReaddirnames,
+	"stub:(*os.File).ReadDir":         FileReadDir,
+	"stub:path/filepath.EvalSymlinks": EvalSymlinks,
+	"stub:os.Symlink":                 Symlink,
+	"stub:os.Getwd":                   Getwd,
 	"stub:(*os.File).ReadFrom":        FileReadFrom,
 	"stub:(*os.File).WriteTo":         FileWriteTo,
 	"stub:time.Now":                   Now,
+	"stub:time.Since":                 Since,
+	"stub:time.Until":                 Until,
 	"stub:crypto/sha256.New":          NewSHA256,
 	"stub:crypto/sha256.Sum256":       Sum256,
 	"stub:syscall.Flock":              Flock,
